@@ -11,7 +11,7 @@ EXPLANATION = ('Static rules: Z1 every pipeline builder (each provided Observabl
                'defer/of_fn/start/create are called exactly once on every path of actual_subscribe and are bound FnOnce; Z3 no operator or cold '
                'source value holds shared state (no Rc/Arc/MutRc/MutArc/RefCell/Mutex/Cell field outside its type parameters) and every '
                'per-subscription cell is created inside actual_subscribe or an observer constructor (who-may-create check), so clones '
-               'subscribed any number of times share nothing. Does not decide "same output each time" (value-level; follows from Z3 only '
+               'subscribed any number of times share nothing. Z5 a hand-written Clone of a pipeline type copies every field from the original (a clone that resets part of the configuration subscribes to a different pipeline). Does not decide "same output each time" (value-level; follows from Z3 only '
                'for deterministic user closures).')
 ASSUMPTIONS = ['derive(Clone) of a handle-free struct is a deep copy; user closures are deterministic']
 
@@ -46,11 +46,11 @@ CELL_CREATORS = {
 START_CALLS = ('std::iter::IntoIterator::into_iter', 'std::future::IntoFuture::into_future', 'futures::StreamExt::next', 'futures::TryStreamExt::try_next',
                'futures::FutureExt::shared', 'futures::FutureExt::now_or_never')
 
-CONTROLS = ['Z1|verif_controls::eager_builder', 'Z1|verif_controls::eager_iter_builder', 'Z3|verif_controls::CountingOp']
+CONTROLS = ['Z5|<verif_controls::ResettingOp as Clone>::clone', 'Z1|verif_controls::eager_builder', 'Z1|verif_controls::eager_iter_builder', 'Z3|verif_controls::CountingOp']
 
 
 def check(cx):
-    return z1(cx) + z2(cx) + z3(cx)
+    return z1(cx) + z2(cx) + z3(cx) + z5(cx)
 
 
 def _work(n):
@@ -202,4 +202,42 @@ def z3(cx):
         if not ok:
             res.append(Finding(ID, 'Z3', 'cell created in ' + cx.label(root), False, 'a shared cell is created outside actual_subscribe / an observer constructor: state could outlive or span subscriptions', root['span']))
     res.append(Finding(ID, 'Z3', 'cell creation sites', m >= 40, '%d $rc::own sites, all inside actual_subscribe or tabled constructors' % m))
+    return res
+
+
+def z5(cx):
+    """hand-written Clone impls are field-wise copies (operator trees by provenance dataflow, see C03.S11)"""
+    from .. import prov as P
+    from . import c03
+    F = cx.facts
+    res = []
+    n = 0
+    for im in sorted(F.impls_of('std::clone::Clone'), key=lambda i: (i['file'], i['line'], i['self_s'])):
+        if im.get('derived'):
+            continue
+        tag = roles.impl_tag(cx, im)
+        if cx.control != ('verif_controls' in tag):
+            continue
+        fn = F.impl_fn(im, 'clone')
+        if fn is None or tag not in F.adts:
+            continue
+        n += 1
+        g = cx.graph(fn['key'], defaults=True)
+        sums, _ = P.summaries(g, item_arg=0, maxd=40)
+        ftys = dict(roles.adt_fields(cx, tag))
+        bad = None
+        for sm, key in sums:
+            v = sm['store'].get(('L', 0), ('unk',))
+            if v[0] != 'adt' or len(v) < 4 or not v[3]:
+                continue
+            for op, fname in zip(v[2], v[3]):
+                if fname in ftys and c03._is_marker(F, ftys[fname]):
+                    continue
+                if not c03._dec11(P, op) or op[0] == 'call' and not op[1].endswith('Default::default'):
+                    continue
+                if op != ('old', (fname,)):
+                    bad = 'the clone does not copy field `%s` from the original (it gets %s): subscribing the clone runs a different pipeline than subscribing the original' % (fname, P.show(op))
+        res.append(Finding(ID, 'Z5', '<%s as Clone>::clone' % tag, not bad, bad or 'field-wise copy', fn['span']))
+    if not cx.control and n < 10:
+        res.append(Finding(ID, 'Z5', 'floor', False, 'expected >= 10 hand-written Clone impls, found %d' % n))
     return res
